@@ -10,7 +10,7 @@ from env import seams
 ID = "C04"
 LEVEL = "fault_enumeration"
 RULE = (
-    "for every base blob (quick: SHA512/nonce and SHA256/P-256 in both layouts + one 300-byte plaintext; thorough: 4 hashes x {nonce,DH,P256,P384} x 2 layouts + the long one), exhaustively: "
+    "for every base blob (quick: SHA512/nonce and SHA256/P-256 in both layouts + one 300-byte plaintext; thorough: 4 hashes x {nonce,DH,P256,P384} x 2 layouts + the long one) and for nested bases whose secret is itself a blob of the same root key (quick 3, thorough 16; flips, truncations, deletions, insertions, substitutions), exhaustively: "
     "every single-bit flip, every truncation length, deletion of each byte, insertion of 00/FF at each offset, every TLV-header byte and key-identifier header byte replaced by each of "
     "{00,01,7F,80,81,FF}, blobs whose ciphertext is exactly 64 KiB, 1 MiB (thorough: also 2 MiB, 3 MiB, 16 MiB; sparse flips and truncations) (64 KiB: every bit of its headers and of the first/last bytes of the ciphertext, two bits of every 1021st byte, truncations around 4 KiB/64 KiB) through the sync and the async API, and all pairs of flips among {bit 0 of every byte whose flip was harmless} u {first bit of every field}. Algorithm substitution: the content-encryption algorithm identifier replaced by 17 other ciphers / modes x 5 parameter forms, for the IV forms combined with every value of the last / 17th-from-last ciphertext octet. Forgeries that need no secret: key position overwritten with one of 11 positions x 2 L0, wrapped CEK re-wrapped under a KEK derived from one of 7 publicly known byte strings (empty, zeros, the root key id, the key nonce, ...) used as L2 key / L1 key / L0 seed / root key, content re-encrypted (IV kept). The same forgeries against caches with a history (seed keys fetched from the DC; then a protect served from the cache; root key + a protect at (31,31)). Each mutated blob is decrypted by the real unprotect API with an offline "
     "cache holding the right root key (network seams raise). Blobs rejected by the authentication checks are decrypted a second time in the same process (a retry must not succeed). Oracle: original plaintext | any exception | needs-network; different bytes is the violation. Distinct by (blob, mutation); non-trivial = the "
@@ -19,7 +19,7 @@ RULE = (
     ' Also pieces of the blob itself (ciphertext + tag, every DER node, tail, whole blob) appended / inserted behind the envelope / prepended; transplants are judged on a cache that has already opened every genuine blob.'
 )
 ASSUME = ["offline KeyCache with the matching root key; DNS/socket seams raise NeedsNetwork", "BudgetExceeded / hangs are C05's subject, not C04's"]
-BOUND = {"quick": "5 base blobs", "thorough": "33 base blobs"}
+BOUND = {"quick": "5 base blobs + 3 nested bases (the secret is itself a blob of the same root key)", "thorough": "33 base blobs + 16 nested bases"}
 KINDS = ["flip", "trunc", "del", "ins", "sub"]
 
 
